@@ -40,7 +40,7 @@ import (
 type hResp struct {
 	Status int    `json:"status"`
 	Ra     int    `json:"ra"`   // Retry-After seconds, -1 none
-	Err    string `json:"err"`  // "none" | "conn"
+	Err    string `json:"err"`  // "none" | "conn" | "attemptdl"
 	Mode   string `json:"mode"` // "buffered" | "streamed"
 }
 
@@ -196,7 +196,16 @@ func runHTTPScenario(t *testing.T, sc hScenario) (lines []M, problem string) {
 			if n <= len(sc.Script) {
 				sr = sc.Script[n-1]
 			}
-			if sr.Err == "conn" {
+			if sr.Err == "attemptdl" {
+				// the server does not answer; the client side bounds every attempt with a deadline of its own (see inner below)
+				tm := time.NewTimer(3 * unit)
+				select {
+				case <-tm.C:
+				case <-r.Context().Done():
+					tm.Stop()
+				}
+			}
+			if sr.Err == "conn" || sr.Err == "attemptdl" {
 				a.tend = time.Since(t0)
 				if hj, ok := w.(http.Hijacker); ok {
 					c, _, _ := hj.Hijack()
@@ -263,6 +272,13 @@ func runHTTPScenario(t *testing.T, sc hScenario) (lines []M, problem string) {
 			mu.Lock()
 			ctxSeen[n] = M{"vals": vals, "dl": dl}
 			mu.Unlock()
+			if n <= len(sc.Script) && sc.Script[n-1].Err == "attemptdl" {
+				// a per-attempt deadline below the adapter (the caller's context stays alive): the attempt fails with an error that
+				// wraps context.DeadlineExceeded - a transient error like any other
+				c2, cancel2 := context.WithTimeout(r.Context(), unit/2)
+				defer cancel2()
+				r = r.WithContext(c2)
+			}
 			resp, err := base.RoundTrip(r)
 			if resp != nil {
 				mu.Lock()
@@ -662,6 +678,16 @@ func init() {
 			}
 			events += len(nl)
 		}
+		// hedged attempts that ALL answer with a response the hedge policy does not accept: the caller gets one of them, the
+		// other one is released (its attempt's context is cancelled, which makes the transport drop the connection)
+		if hl := hedgeLoserLines(); hl != nil {
+			for _, l := range hl {
+				b, _ := json.Marshal(l)
+				w.Write(b)
+				w.WriteByte('\n')
+			}
+			events += len(hl)
+		}
 		w.Flush()
 		out.Close()
 		var sample any
@@ -671,6 +697,86 @@ func init() {
 		emit(M{"k": "summary", "n": len(scs), "events": events, "problems": nprob, "sample": sample})
 		_ = fmt.Sprint
 	}
+}
+
+// hedgeLoserLines: N sequential executions through a hedge policy with a cancel condition (status < 500) against a loopback
+// server that answers 503 to both attempts (the first one slowly, so that the hedge fires). Every response the inner transport
+// handed out is, in the end, closed by the caller or has a cancelled request context.
+func hedgeLoserLines() []M {
+	var mu sync.Mutex
+	seq := 0
+	srv := httptest.NewUnstartedServer(http.HandlerFunc(func(w http.ResponseWriter, r *http.Request) {
+		mu.Lock()
+		seq++
+		first := seq == 1
+		mu.Unlock()
+		if first {
+			time.Sleep(40 * time.Millisecond)
+		}
+		w.WriteHeader(503)
+		w.Write(bytes.Repeat([]byte("x"), 4096))
+	}))
+	ok := func() (ok bool) {
+		defer func() {
+			if recover() != nil {
+				ok = false
+			}
+		}()
+		srv.Start()
+		return true
+	}()
+	if !ok {
+		return nil
+	}
+	defer srv.Close()
+	tr := &http.Transport{}
+	defer tr.CloseIdleConnections()
+	type handed struct {
+		ctx    context.Context
+		closed *atomic.Bool
+	}
+	var all []handed
+	inner := roundTripperFunc(func(r *http.Request) (*http.Response, error) {
+		resp, err := tr.RoundTrip(r)
+		if resp != nil {
+			c := new(atomic.Bool)
+			resp.Body = &trackedBody{ReadCloser: resp.Body, onClose: func() { c.Store(true) }}
+			mu.Lock()
+			all = append(all, handed{r.Context(), c})
+			mu.Unlock()
+		}
+		return resp, err
+	})
+	hp := hedgepolicy.BuilderWithDelay[*http.Response](5 * time.Millisecond).WithMaxHedges(1).
+		CancelIf(func(r *http.Response, err error) bool { return r != nil && r.StatusCode < 500 }).Build()
+	const n = 6
+	done := 0
+	for i := 0; i < n; i++ {
+		mu.Lock()
+		seq = 0
+		mu.Unlock()
+		client := &http.Client{Transport: failsafehttp.NewRoundTripper(inner, hp)}
+		resp, err := client.Get(srv.URL)
+		if err != nil {
+			continue
+		}
+		io.Copy(io.Discard, resp.Body)
+		resp.Body.Close()
+		done++
+	}
+	time.Sleep(60 * time.Millisecond)
+	mu.Lock()
+	defer mu.Unlock()
+	unreleased := 0
+	for _, h := range all {
+		if !h.closed.Load() && h.ctx.Err() == nil {
+			unreleased++
+		}
+	}
+	sc := M{"bodyKind": "none", "bodySize": 0, "execCtx": "none", "grpc": "", "maxRetries": 0, "method": "GET", "policies": []string{"hedgec"}, "reqCtx": "background",
+		"script": []any{}, "via": "hedge-losers"}
+	cfg := M{"script": []any{}, "maxRetries": 0, "unitsPerSec": 1, "policies": []string{"hedgec"}, "seekFailFrom": 0}
+	return []M{{"ev": "HConfig", "cfg": cfg, "scenario": sc}, {"ev": "HedgeLosers", "executions": done, "responses": len(all), "unreleased": unreleased}}
 }
 
 // nilInnerLines runs N sequential requests, each through a NEW failsafe round tripper without an inner transport, against a
